@@ -586,3 +586,64 @@ pub fn compiled_batch(seed: u64, n_hist: usize, n_fam: usize) -> Batch {
 }
 
 pub const QUICK_BATCH: (u64, usize, usize) = (20260928, 36, 12);
+
+/// The declaration of `TestModel1` from desert_macro/tests/golden.rs, transcribed into the model: the type of the
+/// Scala-produced golden/dataset1.bin (anchor of the reference codec, DESIGN section 4).
+pub fn golden_model() -> Ty {
+    use Ty::*;
+    let a = |t: Ty| std::sync::Arc::new(t);
+    let f = |n: &str, t: Ty| Field::new(n, t);
+    let plain = |fields: std::vec::Vec<Field>| Record { fields, steps: vec![] };
+    let list_element1 = Adt(struct_decl("DynListElement1", &plain(vec![f("id", Str)])));
+    // hand-written codec in golden.rs: 00, three Option<String>, var-u32 line number
+    let stack_trace_element = Adt(struct_decl("DynStackTraceElement", &plain(vec![f("class_name", Option(a(Str))), f("method_name", Option(a(Str))), f("file_name", Option(a(Str))), f("line_number", VarU32)])));
+    let throwable = Adt(struct_decl(
+        "DynThrowable",
+        &plain(vec![f("class_name", Str), f("message", Str), f("stack_trace", Vec(a(stack_trace_element))), f("cause", Option(a(Box(a(Rec("DynThrowable".into()))))))]),
+    ));
+    let list_element2 = Adt(std::sync::Arc::new(Decl {
+        name: "DynListElement2".into(),
+        body: DeclBody::Enum {
+            sorted: true,
+            variants: vec![
+                Variant { name: "First".into(), shape: Shape::Struct, transient: false, record: plain(vec![f("elem", list_element1.clone())]) },
+                Variant {
+                    name: "Second".into(),
+                    shape: Shape::Struct,
+                    transient: false,
+                    record: Record {
+                        fields: vec![f("uuid", Uuid), f("desc", Option(a(Str))), Field { name: "_cached".into(), ty: Option(a(Str)), transient: Some(Val::None), opt_spelling: 0 }],
+                        steps: vec![Step::MadeTransient { name: "cached".into() }],
+                    },
+                },
+                Variant { name: "Third".into(), shape: Shape::Struct, transient: true, record: plain(vec![f("_file", Str)]) },
+            ],
+        },
+    }));
+    Adt(struct_decl(
+        "DynTestModel1",
+        &Record {
+            fields: vec![
+                f("byte", I8),
+                f("short", I16),
+                f("int", I32),
+                f("long", I64),
+                f("float", F32),
+                f("double", F64),
+                f("boolean", Bool),
+                f("unit", Unit),
+                f("string", Str),
+                f("uuid", Uuid),
+                f("exception", throwable.clone()),
+                f("list", Vec(a(list_element1.clone()))),
+                f("array", Vec(a(I64))),
+                f("vector", Vec(a(list_element1))),
+                f("set", HashSet(a(Str))),
+                f("either", Result(a(Bool), a(Str))),
+                f("tried", Result(a(list_element2.clone()), a(throwable))),
+                f("option", Option(a(HashMap(a(Str), a(list_element2))))),
+            ],
+            steps: vec![Step::MadeOptional { name: "option".into() }, Step::Added { name: "string".into(), default: Val::str("default string") }, Step::Added { name: "set".into(), default: Val::Seq(vec![]) }],
+        },
+    ))
+}
